@@ -7,7 +7,7 @@ from .. import domains as D
 from ..calltrace import judge_calls
 
 PID = "C20"
-MC_INV = ["Total_", "OkIffNoViolation", "BoundaryAccepted", "BoundaryRefused"]
+MC_INV = ["Total_", "OkIffNoViolation", "BoundaryAccepted", "BoundaryRefused", "RandomTransferRefusal"]
 RANK_RULES = ["STV", "IRV", "SequentialRCV", "Plurality", "SNTV", "Borda", "TopTwo", "Alaska", "DominatingSets", "CondoBorda",
               "RandomDictator", "BoostedRandomDictator", "PluralityVeto"]
 RATING_RULES = ["GeneralRating", "Rating", "Limited", "Cumulative", "Approval", "BlocPlurality"]
@@ -16,7 +16,7 @@ RATING_RULES = ["GeneralRating", "Rating", "Limited", "Cumulative", "Approval", 
 def blank(rule, **kw):
     t = {"op": "validate", "rule": rule, "n": 3, "m": 1, "m1": 2, "quota": "droop", "vec": [], "noranking": False, "prof0": [], "unscored": 0,
          "sprof0": [], "gen": "", "L": [1, 1], "hasK": False, "k": [1, 1], "outcome": "", "partial": False,
-         "ballots": [], "sballots": [], "pos": -1, "tb": "random"}
+         "ballots": [], "sballots": [], "pos": -1, "tb": "random", "xfer": "fractional"}
     t.update(kw)
     return t
 
@@ -60,6 +60,16 @@ def requests(tier, seed):
                     bl = good_ballots(rng, cands)
                     bl[pos] = {"r": bl[pos]["r"], "w": rng.choice([[1, 2], [3, 2], [5, 3]])}
                     reqs.append(blank(rule, **dict(base, ballots=bl, pos=pos)))
+                if rule == "STV":
+                    # the random transfer on a pile with a non-integer weight (every ballot led by the same candidate: the transfer is applied to
+                    # the whole profile in round 1), by a half, a third and a hair; and the accepted twin with whole weights
+                    for wbad in ([1, 2], [7, 3], [3001, 1000], [2, 1]):
+                        lead = rng.choice(cands)
+                        others = [c for c in cands if c != lead]
+                        bl = [{"r": [[lead]] + [[c] for c in rng.sample(others, rng.randint(1, len(others)))], "w": [rng.randint(1, 3), 1]} for _ in range(rng.randint(1, 3))]
+                        bl[rng.randrange(len(bl))]["w"] = wbad
+                        bl.append({"r": [[lead]], "w": [2, 1]})            # at least two votes in all: the leader meets the quota in round 1
+                        reqs.append(blank(rule, **dict(base, m=1, xfer="random", ballots=bl, pos=0)))
                 if rule in ("STV", "SequentialRCV", "IRV", "Alaska"):
                     for quota in ("droop", "hare", "Droop", "imperiali", ""):
                         reqs.append(blank(rule, **dict(base, quota=quota, ballots=good_ballots(rng, cands))))
@@ -226,7 +236,7 @@ def run_request(t, cands, E, VE, Ballot, PreferenceProfile):
     p = PreferenceProfile(ballots=tuple(bl), candidates=tuple(cands))
     m, q = t["m"], t["quota"]
     if rule == "STV":
-        return VE.STV(p, m=m, quota=q, tiebreak=tb)
+        return VE.STV(p, m=m, quota=q, tiebreak=tb, **({"transfer": VE.random_transfer} if t.get("xfer") == "random" else {}))
     if rule == "IRV":
         return VE.IRV(p, quota=q, tiebreak=tb)
     if rule == "SequentialRCV":
